@@ -5,6 +5,7 @@ import (
 	"go/parser"
 	"go/ast"
 	"go/types"
+	"strings"
 
 	"golang.org/x/tools/go/ssa"
 )
@@ -240,6 +241,19 @@ func (e *Exec) goStmt(st *State, fr *Frame, i *ssa.Go) {
 	}
 	ctx.vars = vs
 	for _, r := range c.Requires {
+		if len(onlyClasses) > 0 && !classSelected("PRE") {
+			// lockset / wait-group run: the conjuncts of the thread root's pre-condition that talk about
+			// lock ownership or a wait-group counter are obligations of their own
+			// (a token must have been added before the goroutine that releases it is started)
+			for _, cj := range conjuncts(r.Expr) {
+				t := exprStr(cj)
+				if strings.Contains(t, "G_wgcnt[") {
+					e.check(st, fr, "WG.pre", i, "go "+c.Name+" requires "+t, ctx.evalBool(cj))
+				} else if lockRelated(t) {
+					e.check(st, fr, "LOCK.pre", i, "go "+c.Name+" requires "+t, ctx.evalBool(cj))
+				}
+			}
+		}
 		e.check(st, fr, "PRE", i, "go "+c.Name+" requires "+r.Text, ctx.evalBool(r.Expr))
 	}
 	// effects of spawning declared as ensures of the `spawn` pseudo-clause are
